@@ -277,3 +277,6 @@ def run(chk):
     c01.check_has_sig(chk, F, P, rid="R02.6")
     n = modes.check_modes(chk, F, "R02.5", MODE_FILES)
     chk.floor("R02.5", "mode-specific call sites", n, 70)
+    from . import e2e
+    chk.guard("R02.7", "e2e", e2e.check, chk, F, "R02.7", "complete",
+              "end to end on a bounded family (~60 scripts x every subset of their keys x preimage sets x locks met or not): whenever a canonical satisfaction exists with the owned assets and met locks, the malleable satisfier returns a satisfaction, and so does the non-malleable one for scripts typed non-malleable")
